@@ -870,6 +870,14 @@ def run(ctx: Ctx) -> Outcome:
     monitor_load_save(ctx, out)
     monitor_fragmented(ctx, out)
 
+    # ---- namespace recomputation before save (update_namespaces): tree-level correspondence streams, and API-level
+    # histories that remove the last / add the first user of a namespace (declared == used by raw scan; save ->
+    # reload -> save keeps every byte)
+    import props.xml_ns as xml_ns
+
+    ns_cases = xml_ns.tree_level_cases(ctx, out)
+    monitor_ns_histories(ctx, out, ns_cases)
+
     # ---- differential comparison
     if os.environ.get("VERIF_NO_MODEL") != "1":
         answers = run_model(cs.req, driver="Xml")
@@ -886,6 +894,7 @@ def run(ctx: Ctx) -> Outcome:
                     c["s"] = c["s"][:2000] + "..."
                 short = lambda v: (json.dumps(v, ensure_ascii=False)[:600])  # noqa: E731
                 out.disagree(stream, c, short(iv), short(mv))
+        xml_ns.compare_all(out, ns_cases, run_model([c[0] for c in ns_cases], driver="Xml"))
     out.extra["case_labels"] = cs.labels
     out.extra["alphabet"] = [a.encode("unicode_escape").decode("ascii") for a in ALPHA]
     out.extra["corpus_files"] = len(corpus_files(ctx))
@@ -931,6 +940,39 @@ def monitor_load_save(ctx: Ctx, out: Outcome) -> None:
             out.find("MelodyModel.save|extra-files", f"saving {rel} created {sorted(extra_files)}", {"kind": "model", "path": rel})
         out.hit("load-save-model")
         shutil.rmtree(work, ignore_errors=True)
+
+
+def _ns_models(ctx: Ctx) -> list:
+    """(aird, histories, rounds) for the API-level namespace histories"""
+    data = common.REPO / "tests" / "data"
+    ms = [(data / "writemodel" / "WriteTestModel.aird", ctx.pick(4, 12), 4),
+          (data / "melodymodel" / "5_0" / "Melody Model Test.aird", 1, ctx.pick(3, 6))]
+    if ctx.thorough:
+        ms += [(data / "melodymodel" / "5_2" / "Melody Model Test.aird", 1, 6),
+               (data / "melodymodel" / "6_0" / "Melody Model Test.aird", 1, 6),
+               (data / "parser" / "TestItems.aird", 3, 4), (data / "filtering" / "Filtered Project.aird", 3, 4),
+               (data / "Library Project" / "Library Project.aird", 2, 4)]
+    return ms
+
+
+def _ns_env(ctx: Ctx):
+    os.environ.setdefault("XDG_CACHE_HOME", str(ctx.scratch / "xdg"))
+    import props.c02 as c02
+
+    capellambse = c02.setup()
+    return capellambse, (lambda p: c02.load(capellambse, p)), c02.fresh_copy
+
+
+def monitor_ns_histories(ctx: Ctx, out: Outcome, cases: list) -> None:
+    """API-level histories that remove every user of a type prefix / add the first user of an undeclared one, a save
+    after each round (harness/props/xml_ns.py): declared prefixes == prefixes in use (raw scan of the written file),
+    save -> reload -> save byte for byte; the in-memory trees before / after save() go to the model (`ns.api`)."""
+    import props.xml_ns as xml_ns
+
+    capellambse, loader_fn, fresh_copy = _ns_env(ctx)
+    for aird, n, rounds in _ns_models(ctx):
+        for hi in range(n):
+            xml_ns.ns_api_history(ctx, out, capellambse, loader_fn, aird, hi, cases, rounds, fresh_copy)
 
 
 def monitor_fragmented(ctx: Ctx, out: Outcome) -> None:
@@ -991,6 +1033,20 @@ def monitor_fragmented(ctx: Ctx, out: Outcome) -> None:
 
 def replay(ctx: Ctx, case: dict):
     etree, exs, core = impl()
+    if case["kind"] == "ns-api-history":
+        import props.xml_ns as xml_ns
+
+        capellambse, loader_fn, fresh_copy = _ns_env(ctx)
+        return xml_ns.replay_ns_api(ctx, case, capellambse, loader_fn, fresh_copy)
+    if case["kind"] == "ns-corpus":
+        import props.xml_ns as xml_ns
+
+        o = Outcome()
+        xml_ns.gen_corpus(Ctx(ctx.prop, "thorough", ctx.seed), o, [])
+        for f in o.findings:
+            if f.replay.get("path") == case["path"]:
+                return f.what
+        return None
     if case["kind"] == "fragmented":
         o = Outcome()
         monitor_fragmented(ctx, o)
